@@ -269,6 +269,16 @@ def c03_oracle(ops, outs):
                     break
         if f != 0 and not found and room in ("1", room0):
             res.append(("quiet-round-still-requests-rows", "room %s: the round that changed nothing requested %d rows" % (room0, f)))
+        # what the peers compare is the daily log: after quiescence (every peer recomputed) it must account for the
+        # stored content, otherwise a difference can hide behind it for ever
+        if not found:
+            for i, p in enumerate(peers):
+                bad = [k for k, v in p.log.items() if k[0] == room and not v["dirty"] and ("n" in v["chk"] or "d" in v["chk"])]
+                miss = [k for k in p.missing if k[0] == room]
+                if bad or miss:
+                    res.append(("daily-log-stale-after-quiescence", "room %s: peer %d, (room,entity,day) %s: the log row %s" % (
+                        room, i, (bad or miss)[0], "does not count / hash the stored content" if bad else "is missing")))
+                    break
     return res
 
 
@@ -388,7 +398,11 @@ def c11_oracle(ops, outs):
                 key = (t["src"], t["dest"], t["cdate"])
                 if any((e[0], e[1], int(e[2])) == key for e in p.edges) and ("edge", pi, key) not in seen:
                     seen.add(("edge", pi, key))
-                    res.append(("deleted-reference-back", "peer %d shows the reference %s->%s (created %d) although it stores its deletion record; after `%s`" % (pi, t["src"], t["dest"], t["cdate"], op)))
+                    # known way: the source or target row was deleted and came back (#18), its references are then
+                    # fetched from scratch and add_edges does not look at the deletion log either
+                    dead_any = {u["id"] for q in peers for u in q.ntombs}
+                    name = "deleted-reference-back-with-deleted-row" if (t["src"] in dead_any or t["dest"] in dead_any) else "deleted-reference-back"
+                    res.append((name, "peer %d shows the reference %s->%s (created %d) although it stores its deletion record; after `%s`" % (pi, t["src"], t["dest"], t["cdate"], op)))
         prev = peers
     for room, rounds, quiet, f, peers in final_settles(ops, outs):
         if not quiet: continue
@@ -423,7 +437,10 @@ def c11_oracle(ops, outs):
                     if any((e[0], e[1], int(e[2])) == key for e in p.edges) and not any(u["sig"] == t["sig"] for u in p.etombs) \
                             and ("edge-q", key) not in seen:
                         seen.add(("edge-q", key))
-                        res.append(("deleted-reference-visible-after-quiescence", "room %s: peer %d shows the reference %s->%s (created %d) whose deletion record peer %d stores" % (
+                        dead_any = {u["id"] for r in peers for u in r.ntombs}
+                        name = "deleted-reference-visible-after-quiescence"
+                        if t["src"] in dead_any or t["dest"] in dead_any: name += "-with-deleted-row"
+                        res.append((name, "room %s: peer %d shows the reference %s->%s (created %d) whose deletion record peer %d stores" % (
                             room, pi, t["src"], t["dest"], t["cdate"], qi)))
     return res
 
